@@ -44,6 +44,7 @@ type pipelineStateMachine struct {
 	pending             atomic.Int32             // how many stages are pending, not completed
 	completedCallbackFn func(err error)          // pipeline execute completed will invoke
 	mutex               sync.Mutex
+	err                 error // first error reported by any stage(under mutex)
 	completed           atomic.Bool
 
 	tracker *trackerpkg.StageTracker
@@ -112,11 +113,19 @@ func (sm *pipelineStateMachine) completeStage(stageID string, err error) {
 
 		s.stage.Complete()
 	}
+	if err != nil && sm.err == nil {
+		// keep the first failure, the pipeline must report it even if another stage completes last
+		sm.err = err
+	}
 	sm.mutex.Unlock()
 
 	if sm.pending.Dec() == 0 {
-		// check if all stages execute completed
-		sm.complete(err)
+		// all stages execute completed, every stage latched its failure before decreasing pending
+		sm.mutex.Lock()
+		pipelineErr := sm.err
+		sm.mutex.Unlock()
+
+		sm.complete(pipelineErr)
 	}
 }
 
